@@ -44,13 +44,20 @@ def P_of(name):
     base = {"P1": [[1.0, 0.25, 0.49], [0.04, 0.81, 1.44], [0.3, 0.02, 0.64]],
             "P2": [[0.5, 1.0, 0.01], [0.09, 0.0625, 0.7], [2.25, 0.16, 0.36]],
             # link-budget scale path loss (120-150 dB)
-            "P3": [[1e-12, 2.5e-13, 4e-15], [4e-14, 8.1e-13, 1e-15], [3e-13, 2e-14, 6.4e-13]]}[name]
+            "P3": [[1e-12, 2.5e-13, 4e-15], [4e-14, 8.1e-13, 1e-15], [3e-13, 2e-14, 6.4e-13]],
+            # ANOTHER link-budget scale path loss: every entry differs from P3's by far less than any
+            # absolute tolerance a comparison might use (1e-8), and by a factor 1.5..9 relatively
+            "P4": [[4e-12, 1e-13, 9e-15], [1.6e-13, 2e-13, 6e-15], [1e-13, 9e-14, 1.6e-13]],
+            # the user part of P3 with another external-interference part (see E_of)
+            "P5": [[1e-12, 2.5e-13, 4e-15], [4e-14, 8.1e-13, 1e-15], [3e-13, 2e-14, 6.4e-13]]}[name]
     return np.array(base)[:K, :K]
 
 
 def E_of(name, Ke):
     base = {"P1": [[0.36, 0.7], [1.21, 0.2], [0.9, 0.05]], "P2": [[0.01, 2.0], [0.49, 0.3], [1.69, 0.11]],
-            "P3": [[3.6e-13, 7e-14], [1.21e-12, 2e-15], [9e-13, 5e-14]]}[name]
+            "P3": [[3.6e-13, 7e-14], [1.21e-12, 2e-15], [9e-13, 5e-14]],
+            "P4": [[9e-14, 2.8e-13], [4e-13, 1.8e-14], [1e-13, 4.5e-13]],
+            "P5": [[1.44e-12, 1e-14], [3e-13, 3.2e-14], [2.25e-13, 2e-13]]}[name]
     return np.array(base)[:K, :Ke]
 
 
@@ -490,12 +497,14 @@ def alphabet(ext, tier):
             ev.append(("rand", lay) + ((nte,) if ext else ()))
             for m in (("M1", "M2", "M3") if tier == "thorough" else ("M1", "M3")):
                 ev.append(("init", m, lay) + ((nte,) if ext else ()))
-    muts = [("pl", "P1"), ("pl", "P3") if tier != "thorough" else ("pl", "P2"), ("pl", None),
+    muts = [("pl", "P1"), ("pl", "P3") if tier != "thorough" else ("pl", "P2"), ("pl", "P4"), ("pl", None),
             ("nv", None), ("nv", 0.0), ("nv", 0.1),
             ("pf", "W1"), ("pf", "W2"), ("pf", None)]
     reads = [("rd", "H"), ("rd", "big_H"), ("rd", "Hkl"), ("rd", "Hk")]
     if ext:
         reads += [("rd", "big_H_no_ext_int"), ("rd", "H_no_ext_int"), ("rd", "Hk_without_ext_int")]
+    if ext:
+        muts += [("pl", "P5")]
     if tier == "thorough":
         muts += [("pl", "P3"), ("nv", 1e-13)]
     tx = [("tx", "cd"), ("tx", "ccd"), ("bad", "init_wrong_shape"), ("bad", "init_K_mismatch"),
